@@ -148,6 +148,7 @@ def pade_and_legendre_5():
         L_odd = [P @ B * C[1, 3] + B * C[1, 1], P @ B * C[3, 3], zeros]
 
         for k in [2]:  # todo: triple-check
+            P = A2 @ P
             L_even = [ell + P @ B * C[2 * i, 2 * k] for i, ell in enumerate(L_even)]
             L_odd = [
                 ell + P @ B * C[2 * i + 1, 2 * k + 1] for i, ell in enumerate(L_odd)
